@@ -113,6 +113,8 @@ package migrator
 //@   property C23
 //@   overflow: assumed
 //@   modifies *
+//@   loop 0 invariant[every_chunk_so_far_was_read] entryMap != nil && (calls("Migrator.loadV1File") > old(calls("Migrator.loadV1File")) ==> isnil(lastret("Migrator.loadV1File", 1)))
+//@   loop 1 invariant[every_chunk_so_far_was_read_inner] calls("Migrator.loadV1File") > old(calls("Migrator.loadV1File")) ==> isnil(lastret("Migrator.loadV1File", 1))
 //@   loop 1 invariant[last_record_of_a_key_wins] entryMap != nil && (rangeindex >= 0 ==> has(entryMap, fileEntries[rangeindex].Key) && sliceid(entryMap[fileEntries[rangeindex].Key].Data) == sliceid(fileEntries[rangeindex].Data) && len(entryMap[fileEntries[rangeindex].Key].Data) == len(fileEntries[rangeindex].Data))
 //@   ensures[unreadable_chunk_fails_the_load] calls("Migrator.loadV1File") > old(calls("Migrator.loadV1File")) && !isnil(lastret("Migrator.loadV1File", 1)) ==> err != nil && isnil(entries)
 //@ func (*Migrator).deleteV1Files(m, folderPath) (err)
